@@ -610,3 +610,45 @@ def _probes(tier="quick", seed=0):
 
 
 groups.group(id="C08.bounded.probes", prop="C08", kind="B", functions=["microjs.context:Context.eval"])(_probes)
+
+
+# ---- Object.setPrototypeOf: re-links exactly when no cycle would arise -------------------------------------------------
+@recursive
+def spec_on_object_chain(c, x) -> "bool":
+    """x is c or one of its ancestors, following [[Prototype]] links of objects"""
+    if not isinstance(c, JSObject):
+        return False
+    if c is x:
+        return True
+    return spec_on_object_chain(c._prototype, x)
+
+
+def inv_set_prototype_of(obj, proto, ancestor):
+    return spec_on_object_chain(ancestor, obj) == spec_on_object_chain(proto, obj)
+
+
+def c_set_prototype_of(obj: Obj("JSObject"), proto: Obj("JSObject")):
+    """setPrototypeOf(o, p) links o to p unless o is p or one of p's ancestors (then TypeError and no change);
+    nothing else changes -- for chains of any length"""
+    cyclic = spec_on_object_chain(proto, obj)
+    snap = heap_snapshot()
+    r = outcome(REAL, obj, proto)
+    if cyclic:
+        check("cycle.refused-with-TypeError", exc_in(r, ("JSTypeError",)))
+        check("cycle.nothing-changes", heap_unchanged(snap))
+    else:
+        check("links.returns-the-object", r[0] == "ret" and same_ref(r[1], obj))
+        check("links.prototype-is-the-argument", same_ref(obj._prototype, proto))
+        check("links.nothing-else-changes", heap_unchanged(snap, (obj, "_prototype")))
+
+
+def _native_set_prototype_of():
+    from microjs import Context
+    ctx = Context()
+    return ctx._globals["Object"].get("setPrototypeOf")
+
+
+register(c_set_prototype_of, id="C08.Object.setPrototypeOf", prop="C08",
+         target=closure("microjs.context", "Context._create_object_constructor", "set_prototype_of"),
+         native=_native_set_prototype_of, heap_inputs=True,
+         invariants={("microjs.context:Context._create_object_constructor.<set_prototype_of>", "isinstance(ancestor, JSObject)"): inv_set_prototype_of})
